@@ -475,7 +475,11 @@ def gen_reuse(rng, quick, cpus):
     cpu_count() // n_jobs == 1 for all of them (the default worker environment is then identical)."""
     seqs = [{"pin": True, "seq": [[4, 6], [2, 6]]}, {"pin": True, "seq": [[2, 4], [4, 6], [2, 6]]},
             {"pin": True, "seq": [[3, 5], [2, 5], [3, 5]]},
-            {"pin": True, "seq": [[4, 0], [2, 4], [3, 0], [2, 4]]}]   # ntasks 0: configured, nothing submitted (unstarted executor)
+            {"pin": True, "seq": [[4, 0], [2, 4], [3, 0], [2, 4]]},   # ntasks 0: configured, nothing submitted (unstarted executor)
+            # after a failed call / a dead worker the executor is REPLACED: the replacement has the size of the new call
+            {"pin": True, "seq": [[4, 6, "fail"], [2, 4], [3, 5]]},
+            {"pin": True, "seq": [[4, 6, "kill"], [2, 4], [4, 6]]},
+            {"pin": True, "seq": [[2, 4, "fail"], [4, 6], [2, 4]]}]
     if cpus >= 4:
         a = cpus // 2 + 2
         seqs.append({"pin": False, "seq": [[a, a + 2], [a - 1, a + 2]]})
@@ -507,7 +511,7 @@ def reuse_model_expr(spec, cpus):
     """the loky calls of the sequence as executor operations: (resolved n_jobs, code of the executor arguments); the arguments
     differ only through the worker environment: pinned -> constant, otherwise MAX_NUM_THREADS = max(cpus // n_jobs, 1);
     a call with n_jobs = 1 runs sequentially and does not touch the executor"""
-    ops = [(n, -1 if spec.get("pin") else max(cpus // n, 1), m > 0) for n, m in spec["seq"] if n != 1]
+    ops = [(it[0], -1 if spec.get("pin") else max(cpus // it[0], 1), it[1] > 0) for it in spec["seq"] if it[0] != 1]
     return "exec_trace [%s] init_state" % "; ".join("(%s, %s, %s)" % (z(n), z(a), b(sub)) for n, a, sub in ops)
 
 
@@ -515,7 +519,7 @@ def judge_reuse_model(spec, run, model_trace):
     """executor identity / _max_workers / live workers after every call, against the machine"""
     afters = [e for e in run["events"] if e["e"] == "after"]
     ids, got = {}, []
-    for (n, _), a in zip(spec["seq"], afters):
+    for (n, *_), a in zip(spec["seq"], afters):
         if n == 1:
             continue
         if a["exec"] is None:
@@ -537,7 +541,14 @@ def judge_reuse(spec, run):
     for c in [e for e in ev if e["e"] == "call"]:
         stats["calls"] += 1
         k = int(c["path"][1:])
-        n, m = spec["seq"][k]
+        n, m = spec["seq"][k][0], spec["seq"][k][1]
+        if len(spec["seq"][k]) > 2:
+            ab = next((e for e in ev if e["e"] == "after" and e["path"] == c["path"]), {})
+            if ab.get("raised") in (None, "no-exception"):
+                bad.append("abnormal call %s (%s) did not report an error to the caller" % (c["path"], spec["seq"][k][2]))
+            prev = n
+            prev_abnormal = spec["seq"][k][2]
+            continue
         tasks = [e for e in ev if e["e"] in ("S", "E") and e["call"] == c["path"]]
         starts = [e for e in tasks if e["e"] == "S"]
         if len(starts) != m or len(tasks) != 2 * m:
@@ -555,11 +566,13 @@ def judge_reuse(spec, run):
         exp_eff = 1 if n == 1 else n
         if eff != exp_eff:
             bad.append("call %s: Parallel(n_jobs=%d) resolved to %d workers" % (c["path"], n, eff))
-        after = "" if prev is None else " right after a call with n_jobs=%d on the same executor" % prev
+        after = "" if prev is None else (" right after a call with n_jobs=%d on the same executor" % prev if not locals().get("prev_abnormal")
+                                         else " right after a call with n_jobs=%d in which %s" % (prev, {"fail": "a task raised", "kill": "a worker was killed"}[prev_abnormal]))
         if hw > eff:
             bad.append("loky call %s with n_jobs=%d%s: %d tasks were running at the same time" % (c["path"], eff, after, hw))
         elif timeouts == 0 and hw != min(eff, m):
             bad.append("loky call %s with n_jobs=%d%s: %d tasks but at most %d ever ran together" % (c["path"], eff, after, m, hw))
+        prev_abnormal = None
         # (the number of distinct pids is not judged here: workers may legitimately be replaced while the executor is resized)
         prev = n
     return bad, stats
@@ -936,7 +949,7 @@ Definition showc (r : result Z) (pool : Z) : list Z :=
             if st["timeouts"]:
                 reuse_stats["inconclusive"] += 1
                 ctx.note("reuse sequence %s: barrier timeout twice, reported as inconclusive" % sp)
-        if not st["timeouts"]:
+        if not st["timeouts"] and not any(len(it) > 2 for it in sp["seq"]):
             mt = parse(ctx.coq_eval_lines(REQ_EXEC, DEFS_EXEC, [reuse_model_expr(sp, real_cpus)], name="c15_exec_%d" % i)[0])
             n_model += 1
             d = judge_reuse_model(sp, rr, mt)
